@@ -70,7 +70,7 @@ func withinLimits(l [4]uint32, d mstore.Dump, injected bool) []violation {
 }
 
 // fits tells whether the property demands acceptance of the operation ("" = no demand).
-func fits(l [4]uint32, o mstore.Op, before mstore.Dump) string {
+func fits(l [4]uint32, o mstore.Op, before mstore.Dump, id *ident) string {
 	room := func(m *mstore.MboxDump, n int) bool {
 		return m.Count+n <= int(l[1]) && m.UIDNext+n <= int(l[2])
 	}
@@ -94,32 +94,68 @@ func fits(l [4]uint32, o mstore.Op, before mstore.Dump) string {
 		if len(before.Mboxes)+missing <= int(l[0]) {
 			return "create fits"
 		}
-	case "copy":
+	case "copy", "move":
 		src, dst := before.Get(o.Name), before.Get(o.Name2)
-		if src == nil || dst == nil || !o.LabelOK || o.Name == o.Name2 || o.Name == mstore.RecoveryName || o.Name2 == mstore.RecoveryName {
+		if src == nil || dst == nil || !o.LabelOK || o.Name == mstore.RecoveryName || o.Name2 == mstore.RecoveryName {
 			return ""
 		}
-		n := 0
+		// messages of the selection that the destination already holds are replaced, not added
+		n, dups := 0, 0
 		for _, r := range src.Rows {
 			for _, u := range o.UIDs {
 				if r.UID == u {
 					n++
-					for _, dr := range dst.Rows {
-						if dr.Lit == r.Lit {
-							return "" // possibly the same message: it would be replaced, not added
-						}
+					if id.has(o.Name2, id.get(o.Name, r.UID)) {
+						dups++
 					}
 				}
 			}
 		}
-		if n > 0 && room(dst, n) {
-			return "copy fits"
+		if dst.Count-dups+n <= int(l[1]) && dst.UIDNext+n <= int(l[2]) {
+			return fmt.Sprintf("%s fits: %d selected, %d of them already in the destination (%d messages, UIDNEXT %d)", o.Kind, n, dups, dst.Count, dst.UIDNext)
 		}
+	case "connrestate", "connremsg":
+		return "restates what exists"
+	case "statecreate":
+		missing := 0
+		for _, n := range o.Names {
+			if before.Get(n) == nil {
+				missing++
+			}
+		}
+		if missing == 0 {
+			return "restates what exists"
+		}
+		if len(before.Mboxes)+missing <= int(l[0]) {
+			return "state write fits"
+		}
+	case "conncreate":
+		if before.Get(o.Name) == nil && len(before.Mboxes)+1 <= int(l[0]) {
+			return "connector mailbox fits"
+		}
+	case "connmsgs":
+		// every message is new: fits iff every target has room for the messages addressed to it
+		per := map[string]int{}
+		for _, b := range o.Batch {
+			for _, n := range b.Mboxes {
+				if n == mstore.RecoveryName || before.Get(n) == nil {
+					return ""
+				}
+				per[n]++
+			}
+		}
+		for n, k := range per {
+			if !room(before.Get(n), k) {
+				return ""
+			}
+		}
+		return "connector batch fits"
 	}
 	return ""
 }
 
-func observe(l [4]uint32, o mstore.Op, ob mstore.Obs, before, after mstore.Dump, injected bool) []violation {
+func observe(l [4]uint32, o mstore.Op, ob mstore.Obs, before, after mstore.Dump, injected bool, id *ident) []violation {
+	defer id.apply(o, ob, before, after)
 	vs := withinLimits(l, after, injected)
 	if ob.Class == "other" {
 		vs = append(vs, violation{"unexpected-response", o.String() + ": " + ob.Text})
@@ -159,10 +195,159 @@ func observe(l [4]uint32, o mstore.Op, ob mstore.Obs, before, after mstore.Dump,
 			}
 		}
 	}
-	if f := fits(l, o, before); f != "" && ob.Class != "ok" {
+	if o.Kind == "connrestate" || o.Kind == "connremsg" || (o.Kind == "statecreate" && fits(l, o, before, id) == "restates what exists") {
+		for _, m := range after.Mboxes {
+			if !sameMbox(before.Get(m.Name), after.Get(m.Name)) {
+				vs = append(vs, violation{"restating-operation-changed-a-mailbox", fmt.Sprintf("%s changed %q", o, m.Name)})
+				break
+			}
+		}
+		if len(before.Mboxes) != len(after.Mboxes) {
+			vs = append(vs, violation{"restating-operation-changed-a-mailbox", fmt.Sprintf("%s: %d mailboxes before, %d after", o, len(before.Mboxes), len(after.Mboxes))})
+		}
+	}
+	if f := fits(l, o, before, id); f != "" && ob.Class != "ok" {
 		vs = append(vs, violation{"fitting-operation-refused", fmt.Sprintf("%s (%s) answered %s %s", o, f, ob.Class, ob.Text)})
 	}
 	return vs
+}
+
+// ---- message identity (which rows are the same message: a COPY onto a mailbox that holds the message replaces it) ----
+
+type ident struct {
+	tok  map[string]map[int]int // mailbox -> uid -> token
+	next int
+}
+
+func newIdent() *ident { return &ident{tok: map[string]map[int]int{}} }
+
+func (t *ident) get(name string, uid int) int {
+	if t == nil {
+		return -1
+	}
+	if v, ok := t.tok[name][uid]; ok {
+		return v
+	}
+	return -1
+}
+
+func (t *ident) has(name string, token int) bool {
+	if t == nil || token < 0 {
+		return false
+	}
+	for _, v := range t.tok[name] {
+		if v == token {
+			return true
+		}
+	}
+	return false
+}
+
+func (t *ident) set(name string, uid, token int) {
+	if t.tok[name] == nil {
+		t.tok[name] = map[int]int{}
+	}
+	t.tok[name][uid] = token
+}
+
+func (t *ident) fresh() int { t.next++; return t.next }
+
+// apply updates the tokens after an operation; rows it cannot attribute get a fresh token (then they are never
+// counted as "already there", which only makes the acceptance oracle demand less).
+func (t *ident) apply(o mstore.Op, ob mstore.Obs, before, after mstore.Dump) {
+	if t == nil {
+		return
+	}
+	if ob.Class == "ok" {
+		switch o.Kind {
+		case "copy", "move":
+			if o.Name != mstore.RecoveryName {
+				src := map[int]int{}
+				for u, v := range t.tok[o.Name] {
+					src[u] = v
+				}
+				for _, p := range ob.Pairs {
+					if v, ok := src[p[0]]; ok {
+						t.set(o.Name2, p[1], v)
+					}
+				}
+			}
+		case "connmsgs":
+			toks := make([]int, len(o.Batch))
+			for i := range toks {
+				toks[i] = t.fresh()
+			}
+			per := map[string][]int{}
+			for i, b := range o.Batch {
+				for _, n := range b.Mboxes {
+					per[n] = append(per[n], toks[i])
+				}
+			}
+			for n, ts := range per {
+				b, a := before.Get(n), after.Get(n)
+				if a == nil {
+					continue
+				}
+				old := map[int]bool{}
+				if b != nil {
+					for _, r := range b.Rows {
+						old[r.UID] = true
+					}
+				}
+				k := 0
+				for _, r := range a.Rows {
+					if !old[r.UID] && k < len(ts) {
+						t.set(n, r.UID, ts[k])
+						k++
+					}
+				}
+			}
+		case "rename":
+			if o.Name == "INBOX" {
+				b, a := before.Get("INBOX"), after.Get(o.Name2)
+				if b != nil && a != nil && len(a.Rows) == len(b.Rows) {
+					for i, r := range a.Rows {
+						t.set(o.Name2, r.UID, t.get("INBOX", b.Rows[i].UID))
+					}
+				}
+			} else {
+				moved := map[string]map[int]int{}
+				for n, m := range t.tok {
+					if n == o.Name {
+						moved[o.Name2] = m
+					} else if strings.HasPrefix(n, o.Name+"/") {
+						moved[o.Name2+n[len(o.Name):]] = m
+					} else {
+						continue
+					}
+					delete(t.tok, n)
+				}
+				for n, m := range moved {
+					t.tok[n] = m
+				}
+			}
+		}
+	}
+	// synchronise with what is there now
+	for n := range t.tok {
+		if after.Get(n) == nil {
+			delete(t.tok, n)
+		}
+	}
+	for _, m := range after.Mboxes {
+		present := map[int]bool{}
+		for _, r := range m.Rows {
+			present[r.UID] = true
+			if v, ok := t.tok[m.Name][r.UID]; !ok || v < 0 {
+				t.set(m.Name, r.UID, t.fresh())
+			}
+		}
+		for u := range t.tok[m.Name] {
+			if !present[u] {
+				delete(t.tok[m.Name], u)
+			}
+		}
+	}
 }
 
 // ---- generator ----
@@ -244,8 +429,25 @@ func genOp(rng *common.Rng, d mstore.Dump, nlits int) mstore.Op {
 				continue
 			}
 			return mstore.Op{Kind: "connmsgs", Batch: b}
-		case x < 96:
+		case x < 95:
 			return mstore.Op{Kind: "conncreate", Name: pick([]string{"k", "k/l", "w"})}
+		case x < 96:
+			// operations that restate what exists: they must be accepted at every limit and change nothing
+			switch rng.Pick(3) {
+			case 0:
+				return mstore.Op{Kind: "connrestate", Name: pick(normal)}
+			case 1:
+				names := []string{pick(normal)}
+				if rng.Chance(0.5) {
+					names = append(names, pick(normal))
+				}
+				if rng.Chance(0.4) {
+					names = append(names, pick([]string{"sw1", "sw2"})) // at most one new mailbox per state write
+				}
+				return mstore.Op{Kind: "statecreate", Names: dedup(names)}
+			default:
+				return mstore.Op{Kind: "connremsg"}
+			}
 		default:
 			if len(withMsgs) == 0 {
 				continue
@@ -254,6 +456,20 @@ func genOp(rng *common.Rng, d mstore.Dump, nlits int) mstore.Op {
 			return mstore.Op{Kind: "expunge", Name: m.Name, UIDs: uids(m), RemoteOK: true, Sess: rng.Pick(2)}
 		}
 	}
+}
+
+func dedup(xs []string) []string {
+	var r []string
+	for _, x := range xs {
+		d := false
+		for _, y := range r {
+			d = d || x == y
+		}
+		if !d {
+			r = append(r, x)
+		}
+	}
+	return r
 }
 
 func newLits(n int) *mstore.Literals {
@@ -272,8 +488,9 @@ func runOps(lim [4]uint32, ops []mstore.Op, nlits int) (*violation, error) {
 	}
 	defer w.Close()
 	var first *violation
+	idt := newIdent()
 	_, _, err = mstore.Replay(w, ops, func(i int, o mstore.Op, ob mstore.Obs, before, aft mstore.Dump) bool {
-		if vs := observe(lim, o, ob, before, aft, w.Injected); len(vs) > 0 {
+		if vs := observe(lim, o, ob, before, aft, w.Injected, idt); len(vs) > 0 {
 			first = &vs[0]
 			return false
 		}
@@ -494,6 +711,37 @@ func runC17(ctx *common.Ctx) error {
 		{Limits: [4]uint32{6, 1, 100, 1 << 31}, Ops: []mstore.Op{{Kind: "append", Name: "INBOX", Lit: 0, Remote: "ok"}, {Kind: "append", Name: "INBOX", Lit: 1, Remote: "ok"}, {Kind: "append", Name: "INBOX", Lit: 2, Remote: "ok"}}},
 		{Limits: [4]uint32{2, 5, 100, 1 << 31}, Ops: []mstore.Op{{Kind: "rename", Name: "INBOX", Name2: "q", RemoteOK: true}}},
 	}
+	cp := func(kind, src string, uids []int, dst string) mstore.Op {
+		return mstore.Op{Kind: kind, Name: src, UIDs: uids, Name2: dst, CreateOK: true, LabelOK: true}
+	}
+	ap := func(name string, lit int) mstore.Op {
+		return mstore.Op{Kind: "append", Name: name, Lit: lit, Remote: "ok"}
+	}
+	mk := func(name string) mstore.Op { return mstore.Op{Kind: "create", Name: name, RemoteOK: true} }
+	corpus = append(corpus,
+		// multi-message operations whose FIRST UID fits and whose last does not (UID limit 5, destination UIDNEXT 3)
+		c17Case{Limits: [4]uint32{6, 50, 5, 1 << 31}, Ops: []mstore.Op{mk("t"), ap("INBOX", 0), ap("INBOX", 1), ap("INBOX", 2), ap("INBOX", 3), ap("t", 4), ap("t", 0),
+			cp("copy", "INBOX", []int{1, 2, 3, 4}, "t"), cp("move", "INBOX", []int{1, 2, 3}, "t"), cp("copy", "INBOX", []int{1, 2}, "t")}},
+		c17Case{Limits: [4]uint32{6, 50, 5, 1 << 31}, Ops: []mstore.Op{mk("t"), ap("t", 4), ap("t", 0),
+			{Kind: "connmsgs", Batch: []mstore.BatchMsg{{Lit: 1, Mboxes: []string{"t"}}, {Lit: 2, Mboxes: []string{"t"}}, {Lit: 3, Mboxes: []string{"t", "INBOX"}}, {Lit: 0, Mboxes: []string{"t"}}}},
+			{Kind: "connmsgs", Batch: []mstore.BatchMsg{{Lit: 1, Mboxes: []string{"t"}}, {Lit: 2, Mboxes: []string{"t"}}}}}},
+		// ... and whose first message fits the message limit but not all of them
+		c17Case{Limits: [4]uint32{6, 3, 50, 1 << 31}, Ops: []mstore.Op{mk("t"), ap("INBOX", 0), ap("INBOX", 1), ap("INBOX", 2), ap("t", 4), ap("t", 0),
+			cp("copy", "INBOX", []int{1, 2, 3}, "t"), cp("move", "INBOX", []int{2, 3}, "t"), cp("copy", "INBOX", []int{3}, "t")}},
+		// COPY / MOVE onto a FULL mailbox that already holds the messages: they are replaced, the count stays - fits
+		c17Case{Limits: [4]uint32{6, 2, 50, 1 << 31}, Ops: []mstore.Op{mk("t"), ap("INBOX", 0), ap("INBOX", 1), cp("copy", "INBOX", []int{1, 2}, "t"),
+			cp("copy", "INBOX", []int{1, 2}, "t"), cp("copy", "INBOX", []int{2}, "t"), cp("copy", "INBOX", []int{1, 2}, "INBOX"), cp("copy", "t", []int{5}, "INBOX"),
+			cp("move", "t", []int{4, 5}, "INBOX"), ap("t", 3), cp("copy", "INBOX", []int{6, 7}, "t")}},
+		c17Case{Limits: [4]uint32{6, 3, 50, 1 << 31}, Ops: []mstore.Op{mk("t"), ap("INBOX", 0), ap("INBOX", 1), ap("t", 2), cp("copy", "INBOX", []int{1, 2}, "t"),
+			cp("copy", "INBOX", []int{1, 2}, "t"), ap("INBOX", 3), cp("copy", "INBOX", []int{1, 2, 3}, "t"), cp("move", "INBOX", []int{1}, "t")}},
+		// at the mailbox limit (recovery + INBOX + a = 3): restating operations of every entry path are accepted, new ones refused
+		c17Case{Limits: [4]uint32{3, 2, 4, 1 << 31}, Ops: []mstore.Op{{Kind: "statecreate", Names: []string{"INBOX", "a"}}, {Kind: "statecreate", Names: []string{"INBOX", "a"}},
+			{Kind: "connrestate", Name: "a"}, {Kind: "connrestate", Name: "INBOX"}, {Kind: "statecreate", Names: []string{"a", "extra"}}, {Kind: "conncreate", Name: "extra"},
+			mk("extra"), {Kind: "statecreate", Names: []string{"a"}},
+			// ... and at the message / UID limit of a mailbox
+			{Kind: "connmsgs", Batch: []mstore.BatchMsg{{Lit: 0, Mboxes: []string{"a", "INBOX"}}, {Lit: 1, Mboxes: []string{"a"}}}}, {Kind: "connremsg"},
+			cp("copy", "a", []int{1, 2}, "a"), {Kind: "connremsg"}, cp("copy", "a", []int{9}, "INBOX"), {Kind: "connrestate", Name: "a"}, {Kind: "statecreate", Names: []string{"INBOX", "a"}}}},
+	)
 	runFixed := func(cs *c17Case) error {
 		ctx.Current(fmt.Sprintf("history limits(%s) [%s]", limStr(cs.Limits), mstore.OpsString(cs.Ops)), cs)
 		lits := newLits(nlits)
@@ -505,9 +753,10 @@ func runC17(ctx *common.Ctx) error {
 		g0 := w.G0
 		names := mstore.NewNames()
 		var viol *violation
+		idt := newIdent()
 		steps, final, err := mstore.Replay(w, cs.Ops, func(i int, o mstore.Op, ob mstore.Obs, before, aft mstore.Dump) bool {
 			res.Evaluations++
-			if vs := observe(lim, o, ob, before, aft, w.Injected); len(vs) > 0 {
+			if vs := observe(lim, o, ob, before, aft, w.Injected, idt); len(vs) > 0 {
 				viol = &vs[0]
 				return false
 			}
@@ -550,6 +799,7 @@ func runC17(ctx *common.Ctx) error {
 		names := mstore.NewNames()
 		var viol *violation
 		interesting := false
+		idt := newIdent()
 		steps, final, err := mstore.RunHistory(w, func(d mstore.Dump, i int) *mstore.Op {
 			if i >= nops {
 				return nil
@@ -573,7 +823,7 @@ func runC17(ctx *common.Ctx) error {
 			if len(aft.Mboxes) == int(lim[0]) {
 				interesting = true
 			}
-			if vs := observe(lim, o, ob, before, aft, w.Injected); len(vs) > 0 {
+			if vs := observe(lim, o, ob, before, aft, w.Injected, idt); len(vs) > 0 {
 				viol = &vs[0]
 				return false
 			}
